@@ -40,7 +40,7 @@ SPEC = {
              "one were handed out. The fault counts as reached when the provider's Run returned an error that is not its context's "
              "cancellation; it is carried when the run's error shows that error's text; everything else (all instances stop, guns closed, "
              "Wait returns, nil only when ammo or schedule were used up) is judged as for the doubles. "
-             "CROWDED pools: one case in twenty has a pool of 100, 150, 200, 300, 400 or 600 instances (startup `once N`) with a minute "
+             "CROWDED pools: one case in twenty (thorough tier: one in fifty of its 64 times more cases) has a pool of 100, 150, 200, 300, 400 or 600 instances (startup `once N`) with a minute "
              "of work (2000 shots a second in total, shared or per instance), so that all of them are there when the caller's cancel "
              "(1-300 ms into the run) or the failure of a pool (its own fault plan, or a sibling's) ends the run, and all of them end in "
              "one burst: parked in the schedule wait or - in half of them, after a first instant shot - in a request that takes 30 s "
